@@ -43,6 +43,46 @@ def judge_corr(case, side, res):
             "why": None if ok else "model and real visitor differ: " + " ".join("%s=%s" % (k, res.get(k)) for k in ("roundtrip", "status", "out", "diag"))}
 
 
+def make_judge(okey=None, vkey=None, relevant=None, whole=False):
+    """okey: oracle result on the REAL output ('1', 'known:<slug>', 'fail:<why>');
+       vkey: view correspondence flag; whole: also require whole-output agreement"""
+    def judge(case, side, res):
+        st = side.get("status")
+        if st in ("parse-error", "bad-options", "missing"):
+            return {"relevant": False}
+        if st in ("abort", "timeout"):
+            return {"relevant": True, "ok": True, "corr_ok": False, "why": "real run: " + st}
+        if res is None:
+            return {"relevant": True, "ok": True, "corr_ok": False, "why": "no model result"}
+        rel = relevant(case, side, res) if relevant else True
+        base = all(res.get(k) == "1" for k in ("roundtrip", "status", "diag"))
+        if whole or vkey is None:
+            corr = base and res.get("out") == "1"
+        else:
+            corr = base and res.get(vkey, "1") == "1"
+        v = {"relevant": rel, "ok": True, "corr_ok": corr,
+             "why": None if corr else "model and real visitor differ: " + " ".join("%s=%s" % (k, res.get(k)) for k in ("roundtrip", "status", "out", "diag", vkey) if k)}
+        if okey and st == "ok":
+            o = res.get(okey, "1")
+            if o.startswith("known:"):
+                v["ok"] = False
+                v["known"] = o[6:]
+                v["why"] = "oracle %s: known class %s" % (okey, o[6:])
+            elif o != "1":
+                v["ok"] = False
+                v["why"] = "oracle %s on the real output: %s" % (okey, o)
+        return v
+    return judge
+
+
+def with_options(cases, fn):
+    for c in cases:
+        o = json.loads(c["options"])
+        fn(o, c)
+        c["options"] = json.dumps(o)
+    return cases
+
+
 # ---------------------------------------------------------------- C02: text via the hook
 TEXT_ALPHA = [32, 9, 10, 13, 160, 0x2003, 0x3000, 11, 12, 97, 98, 38]
 
@@ -87,7 +127,19 @@ def c02_text_extra(seed, tier):
             "what": "transform_text through the verif hook on %d strings (all of length <= %d over %d code points + random) vs. the model and vs. jsx_clean" % (len(strings), maxlen, len(alpha))}
 
 
+def gen_c13(seed, tier, start):
+    cs = gen_modules(seed, tier, start, 300, 8000)
+    # hints are only emitted under optimize
+    return with_options(cs, lambda o, c: o.__setitem__("optimize", True) if c["id"] % 4 else None)
+
+
 PROPS = {
+    "C13": {
+        "gen": gen_c13,
+        "judge": make_judge("oC13", "vC13", relevant=lambda c, s, r: '"optimize": true' in c["options"] or '"optimize":true' in c["options"]),
+        "trusted": ["Spec/PatchFlags.v is this check's reading of Vue's patch-flag contract (shouldUpdateComponent / patchElement use of CLASS, STYLE, PROPS, FULL_PROPS, dynamicProps)"],
+        "assumptions": ["the `_`=2 rule for bound identifier children is covered by the correspondence (whole slot objects are in the view) and by C13_slot_hint_values; its full statement is not yet a theorem"],
+    },
     "C02": {
         "gen": lambda seed, tier, start: gen_modules(seed, tier, start),
         "judge": judge_corr,
